@@ -66,6 +66,7 @@ type workerDone struct {
 }
 
 type found struct {
+	other    int64 // cross-process findings: the run that disagrees; -1 otherwise
 	runIndex uint64
 	sig      string
 	detail   string
@@ -159,7 +160,7 @@ func (a *agg) add(r *RunResult, batch [2]uint64, prop string, raceBuild bool) {
 		if prev, ok := a.cross[kv[0]]; ok {
 			a.crossShared++
 			if prev != kv[1] {
-				a.found = append(a.found, found{runIndex: r.RunIndex, sig: "history:cross-process",
+				a.found = append(a.found, found{other: int64(a.crossRun[kv[0]]), runIndex: r.RunIndex, sig: "history:cross-process",
 					detail: fmt.Sprintf("the same operation on the same input gave different results in two processes with different histories: run %d and run %d (key hash %x)", a.crossRun[kv[0]], r.RunIndex, kv[0]), batch: batch})
 			}
 		} else {
@@ -168,7 +169,7 @@ func (a *agg) add(r *RunResult, batch [2]uint64, prop string, raceBuild bool) {
 		}
 	}
 	for _, v := range r.Violations {
-		a.found = append(a.found, found{runIndex: r.RunIndex, sig: v.Sig, detail: v.Detail, batch: batch, race: raceBuild})
+		a.found = append(a.found, found{other: -1, runIndex: r.RunIndex, sig: v.Sig, detail: v.Detail, batch: batch, race: raceBuild})
 	}
 	if r.Trouble != "" {
 		a.trouble = append(a.trouble, fmt.Sprintf("run %d: %s", r.RunIndex, r.Trouble))
@@ -483,7 +484,7 @@ func drive(prop, tier string) int {
 							infraMu.Unlock()
 						} else {
 							a.mu.Lock()
-							a.found = append(a.found, found{runIndex: uint64(crashed), sig: fatalSignature(stderr), detail: clip(stderr, 1500), batch: [2]uint64{j.from, j.n}, race: race})
+							a.found = append(a.found, found{other: -1, runIndex: uint64(crashed), sig: fatalSignature(stderr), detail: clip(stderr, 1500), batch: [2]uint64{j.from, j.n}, race: race})
 							a.mu.Unlock()
 						}
 						// continue after the crashed run
@@ -555,7 +556,7 @@ func drive(prop, tier string) int {
 				if err != nil || res.FP != a.fpByRun[i] {
 					detMismatch++
 					if prop == "C15" {
-						a.found = append(a.found, found{runIndex: i, sig: "nondeterministic", detail: fmt.Sprintf("run %d executed twice in fresh processes gave different event-log fingerprints", i)})
+						a.found = append(a.found, found{other: -1, runIndex: i, sig: "nondeterministic", detail: fmt.Sprintf("run %d executed twice in fresh processes gave different event-log fingerprints", i)})
 					}
 				}
 			}(n, i)
@@ -673,6 +674,9 @@ func (e *driverEnv) confirmAndMinimise(pl plan, f found) (path string, sigs []st
 	}
 	_ = os.MkdirAll(replayDir, 0o755)
 	path = filepath.Join(replayDir, fmt.Sprintf("%s-%d-%d.json", e.prop, e.base, f.runIndex))
+	if f.sig == "history:cross-process" && f.other >= 0 {
+		return e.confirmPair(pl, f, path)
+	}
 	descPath := filepath.Join(e.tmp, fmt.Sprintf("desc-%d.json", f.runIndex))
 	res, rlog, stderr, err := e.execSingle(race, 0, "one", "-prop", e.prop, "-tier", e.tier, "-base", fmt.Sprint(e.base), "-index", fmt.Sprint(f.runIndex), "-desc", descPath)
 	sigs = sigsOf(res, rlog, stderr, err)
@@ -738,6 +742,53 @@ func (e *driverEnv) confirmAndMinimise(pl plan, f found) (path string, sigs []st
 	d.Reproduced = fmt.Sprintf("%d/3", ok)
 	_ = writeJSON(path, d)
 	return path, sigs, detail
+}
+
+// confirmPair handles a cross-process finding: two histories, each executed in
+// its own process, whose common operations disagree.
+func (e *driverEnv) confirmPair(pl plan, f found, path string) (string, []string, string) {
+	const target = "history:cross-process"
+	d := generate(e.prop, e.tier, e.base, f.runIndex)
+	d.Pair = generate(e.prop, e.tier, e.base, uint64(f.other))
+	d.Expect = target
+	d.OrigOps = d.nOps() + d.Pair.nOps()
+	detail := f.detail
+	run := func(c *RunDesc) (*RunResult, bool) {
+		p := filepath.Join(e.tmp, fmt.Sprintf("pair-%d.json", time.Now().UnixNano()))
+		if writeJSON(p, c) != nil {
+			return nil, false
+		}
+		defer os.Remove(p)
+		r, rl, se, er := e.execSingle(false, 0, "replay", "-file", p)
+		return r, contains(sigsOf(r, rl, se, er), target)
+	}
+	if _, ok := run(d); ok {
+		deadline := time.Now().Add(120 * time.Second)
+		// minimise history A with B fixed, then B with A fixed
+		pair := d.Pair
+		a := minimise(d, func(c *RunDesc) bool { c.Pair = pair; _, ok := run(c); return ok }, time.Now().Add(60*time.Second))
+		a.Pair = nil
+		b := minimise(pair, func(c *RunDesc) bool { x := a.clone(); x.Pair = c; _, ok := run(x); return ok }, deadline)
+		a.Pair = b
+		a.Expect, a.OrigOps, a.Minimised = target, d.OrigOps, true
+		d = a
+	} else {
+		d.Note = "the pair did not reproduce the disagreement when both histories were re-executed; kept unminimised"
+	}
+	ok := 0
+	for i := 0; i < 3; i++ {
+		if r, good := run(d); good {
+			ok++
+			for _, v := range r.Violations {
+				if v.Sig == target {
+					detail = v.Detail
+				}
+			}
+		}
+	}
+	d.Reproduced = fmt.Sprintf("%d/3", ok)
+	_ = writeJSON(path, d)
+	return path, []string{target}, detail
 }
 
 func (e *driverEnv) evidence(pl plan, a *agg, wall, mainWall float64, mainRuns, extraRuns uint64, violations, knownHits, detChecked, detMismatch int, infra []string, replays []string) map[string]any {
